@@ -203,4 +203,9 @@ def judge (token : Str) (upgrade : Bool) (e : Expect) (upstream : List Headers) 
   | .answered _ => if upstream.isEmpty then [] else [Class.forwardedUnapproved]
   | .forward id => upstream.flatMap (judgeForward token upgrade id)
 
+/-- what the upstream received, as the judge takes it -/
+def upstreamOf : Outcome → List Headers
+  | .forwarded recv _ => [recv]
+  | _ => []
+
 end KG.Spec.Identity
